@@ -438,7 +438,9 @@ impl Exec {
     /// finished). Returns None on deadlock.
     fn choose(&mut self, yielding: bool, must_leave: bool) -> Option<usize> {
         let cur = self.current;
-        let mut cands = self.candidates(must_leave);
+        // a task that must leave is blocked or finished and is excluded by its state; if its timed park
+        // has already expired it is runnable again and a legitimate candidate
+        let mut cands = self.candidates(false);
         if cands.is_empty() {
             // fast-forward to the earliest timed park, if any
             let mut best: Option<(u64, usize)> = None;
